@@ -69,8 +69,7 @@ example : (match encode tiny (fun _ b => b) "Bag" bag with | .ok b => b.length |
 `WFG` (EmissionSem.lean) collects what the generator needs of a schema for its text to be meaningful
 Python; each clause is a case in which the emitted text raises or departs from the layout semantics
 (see the findings in `Proofs/Codec/STATUS.md`). `pyObjOk` restricts the object to the interpreter's
-modelled domain (arrays of at most `maxCount` elements) and to objects on which `.size` is not taken of
-`None` (where Python raises and the interpreter, for members of scalar type, does not). Neither
+modelled domain (arrays of at most `maxCount` elements; only `serialize` needs it). Neither
 hypothesis mentions admissibility: the two computations agree on every such object, errors included. -/
 
 /-- the lines of `generate_serialize_fields` are the rendering of the abstract program -/
@@ -107,15 +106,15 @@ theorem deserialize_text_is_render (S : Schema) (ty : String) (d : StructDef) :
     computes the interpreter's size of the object -/
 theorem emitted_size_eq_size (S : Schema) (T : String → Bytes → Bytes) (rec : Rec) (hwf : WF S = true)
     (hwg : WFG S = true) (ty : String) (d : StructDef) (hfind : S.find ty = some (.struct d))
-    (vs : List (String × Val)) (hshape : shapeOk d vs = true) (hobj : pyObjOk rec d vs = true) :
+    (vs : List (String × Val)) (hshape : shapeOk d vs = true) :
     emittedSize S T rec d vs = structSize rec d vs :=
-  emittedSize_eq hwf hwg hfind hshape hobj
+  emittedSize_eq hwf hwg hfind hshape
 
 /-- running the emitted `serialize` (`super()._serialize(buffer)`, then the class's own statements, with
     `self.size` the emitted `size` property) computes the interpreter's encoding of the object -/
 theorem emitted_serialize_eq_encode (S : Schema) (T : String → Bytes → Bytes) (rec : Rec) (hwf : WF S = true)
     (hwg : WFG S = true) (ty : String) (d : StructDef) (hfind : S.find ty = some (.struct d))
-    (vs : List (String × Val)) (hshape : shapeOk d vs = true) (hobj : pyObjOk rec d vs = true) :
+    (vs : List (String × Val)) (hshape : shapeOk d vs = true) (hobj : pyObjOk d vs = true) :
     emittedSerialize S T rec d vs = encStruct S T rec d vs :=
   emittedSerialize_eq hwf hwg hfind hshape hobj
 
@@ -125,7 +124,7 @@ theorem emitted_serialize_roundtrip (S : Schema) (T : String → Bytes → Bytes
     (ty : String) (d : StructDef) (hfind : S.find ty = some (.struct d)) (hconc : d.abstract = false)
     (vs : List (String × Val)) (b : Bytes) (n : Nat)
     (henc : (recN S T (n + 1)).enc ty (.struct ty vs) = .ok b) (hadm : admN S T (n + 1) ty (.struct ty vs) = true)
-    (hobj : pyObjOk (recN S T n) d vs = true) :
+    (hobj : pyObjOk d vs = true) :
     emittedSerialize S T (recN S T n) d vs = .ok b ∧ emittedSize S T (recN S T n) d vs = .ok b.length ∧
       (recN S T (n + 1)).dec ty b = .ok (.struct ty vs) := by
   have henc' : encTypeStep S T (recN S T n) ty (.struct ty vs) = .ok b := henc
@@ -139,7 +138,7 @@ theorem emitted_serialize_roundtrip (S : Schema) (T : String → Bytes → Bytes
     simp only [hfind, hconc, Bool.false_eq_true, if_false, beq_self_eq_true, if_true] at hsz
     refine ⟨?_, ?_, ?_⟩
     · rw [emittedSerialize_eq hwf hwg hfind hshape hobj]; exact henc'
-    · rw [emittedSize_eq hwf hwg hfind hshape hobj]; exact hsz
+    · rw [emittedSize_eq hwf hwg hfind hshape]; exact hsz
     · have := hrt.2 []
       rwa [List.append_nil] at this
   · cases henc'
@@ -166,7 +165,7 @@ def emittedAgrees (S : Schema) (v : Val) : Bool :=
     (match S.find ty with
       | some (.struct d) =>
         let r := recN S C01.Examples.idT (defaultFuel S)
-        shapeOk d vs && pyObjOk r d vs &&
+        shapeOk d vs && pyObjOk d vs &&
           sameBytes (emittedSerialize S C01.Examples.idT r d vs) (encStruct S C01.Examples.idT r d vs) &&
           sameNat (emittedSize S C01.Examples.idT r d vs) (structSize r d vs)
       | _ => false)
@@ -209,7 +208,7 @@ example :
     (match taggedSchema.find "Tagged" with
       | some (.struct d) =>
         let r := recN taggedSchema C01.Examples.idT 3
-        WF taggedSchema && WFG taggedSchema && shapeOk d taggedObject && pyObjOk r d taggedObject &&
+        WF taggedSchema && WFG taggedSchema && shapeOk d taggedObject && pyObjOk d taggedObject &&
         sameBytes (encStruct taggedSchema C01.Examples.idT r d taggedObject) (.ok [1, 5, 0, 9]) &&
         sameBytes (emittedSerialize taggedSchema C01.Examples.idT r d taggedObject) (.ok [1, 5, 0, 9]) &&
         (renderSer (emitSerialize taggedSchema d)).contains "if 1 == self.type_:"
